@@ -396,6 +396,7 @@ func faultsimMain(c *Ctx) {
 			}
 			out := runSysCase(c, sc, simrt.NewTape(seed))
 			c.Res.Evaluations++
+			c.RunHash(nil, seed, n, out.fired, out.stopped, out.kind, len(out.vs))
 			if out.fired > 0 {
 				c.Count("fault:"+out.kind, 1)
 				c.Distinct(hash64("sys", seed, n))
